@@ -5,7 +5,7 @@ Functions under contract: the PUBLIC operators on wide_integer (cnl::_impl::oper
 function inlined down to the vendored uintwide_t member functions (operator+=, operator-=, negate, <<=, >>=, compare, std::copy/fill
 loops), every limb loop closed by complete unwinding (unwinding assertions on: complete for the instantiation).
 Spec: the limbs concatenated into one W-bit vector V(x) = sum limb[i] << (bits*i); the result's V equals the W-bit two's-complement
-operation on the operands' V (arithmetic >> for signed; shift counts symbolic in [0, W)).  'Independent of the split into limbs':
+operation on the operands' V (arithmetic >> for signed; shift counts: one job per constant count of a boundary-rich set, all values).  'Independent of the split into limbs':
 the same contracts are proved for 16- and 32-bit limbs of one width (thorough).
 NOT claimed (beyond every SAT back end here, measured in the design probe): multi-limb *, /, %, decimal text, float conversion.
 """
@@ -59,7 +59,7 @@ def unop_contract(sym):
     return gen
 
 
-def shift_contract(left, signed):
+def shift_contract(left, signed, K=None):
     def gen(m, fi, tr):
         _, Wb = V(tr, fi, 1, 8)
         r, _ = V(tr, fi, 0, Wb)
@@ -67,14 +67,14 @@ def shift_contract(left, signed):
         U = 'unsigned __CPROVER_bitvector[%d]' % Wb
         S = '__CPROVER_bitvector[%d]' % Wb
         cnt = '((int32_t)(*a2))'
-        req = ['%s >= 0 && %s < %d' % (cnt, cnt, Wb)]
+        req = ['%s >= 0 && %s < %d' % (cnt, cnt, Wb)] if K is None else ['%s == %d' % (cnt, K)]
         if left:
             ex = '(%s)(%s << %s)' % (U, a, cnt)
         elif signed:
             ex = '(%s)(((%s)%s) >> %s)' % (U, S, a, cnt)
         else:
             ex = '(%s)(%s >> %s)' % (U, a, cnt)
-        return Contract(requires=req, ensures=['%s == %s' % (r, ex)], assigns=['*a0'], note='shift count symbolic in [0, %d)' % Wb)
+        return Contract(requires=req, ensures=['%s == %s' % (r, ex)], assigns=['*a0'], note=('shift count symbolic in [0, %d)' % Wb) if K is None else 'shift by the constant %d' % K)
     return gen
 
 
@@ -111,12 +111,17 @@ def plan(tier):
             src.append('extern "C" void %s(%s const* a, %s* r) { *r = -*a; }\n' % (sname, Wt, Wt))
             jobs.append(Job('%s.negate.%s' % (PROP, tag), kname, r'^auto cnl::_impl::operator-<cnl::_impl::wrapper<cnl::_impl::math::wide_integer::uintwide_t<.*> >\(cnl::_impl::wrapper<[^()]*\) ?$|^auto cnl::_impl::operator-<cnl::_impl::wrapper<',
                             unop_contract('-'), via=sname, prop=PROP, unwind=20, timeout=900, skip_this=False, object_bits=13, layer=3))
-        for name, left in ((('shl', True), ('shr', False)) if False else ()):     # symbolic-count limb shifts: out of memory (12 GB) in this session, not claimed
+        # shifts: a symbolic count makes CBMC run out of memory (limb move + bit shift loops); the count is fixed per job to a boundary-rich
+        # set (harness assigns the constant, so symex folds the limb loops) and the contract is proved for ALL values at that count
+        counts = [1, 31, 32, 33, D - 1] if not thorough else [0, 1, 15, 16, 17, 31, 32, 33, 63, 64, 65, 100, D - 33, D - 1]
+        for name, left in (('shl', True), ('shr', False)):
             sname = 'vp_%s_%s' % (name, tag)
             src.append('extern "C" void %s(%s const* a, int s, %s* r) { *r = *a %s s; }\n' % (sname, Wt, Wt, '<<' if left else '>>'))
-            jobs.append(Job('%s.%s.%s' % (PROP, name, tag), kname, r'^auto cnl::_impl::operator(<<|>>)<cnl::_impl::wrapper<cnl::_impl::math::wide_integer::uintwide_t<',
-                            shift_contract(left, signed), via=sname, prop=PROP, unwind=20, timeout=1500, skip_this=False, object_bits=13,
-                            solvers=('cadical', 'kissat'), layer=3))
+            for K in counts:
+                jobs.append(Job('%s.%s%d.%s' % (PROP, name, K, tag), kname, r'^auto cnl::_impl::operator(<<|>>)<cnl::_impl::wrapper<cnl::_impl::math::wide_integer::uintwide_t<',
+                                shift_contract(left, signed, K), via=sname, prop=PROP, unwind=20, timeout=900, skip_this=False, object_bits=13,
+                                harness_pre='vp_in2 = %d;' % K, note='shift count fixed to %d (one job per count of a boundary-rich set); all operand values' % K,
+                                solvers=('minisat', 'cadical'), layer=3))
         for name, sym in (('eq', '=='), ('lt', '<')):
             sname = 'vp_%s_%s' % (name, tag)
             src.append('extern "C" bool %s(%s const* a, %s const* b) { return *a %s *b; }\n' % (sname, Wt, Wt, sym))
@@ -125,7 +130,7 @@ def plan(tier):
     k = Kernel(kname, ''.join(src), [], 'wide_integer linear operations')
     meta = {'instantiations': len(jobs),
             'explanation': 'limbs concatenated into one W-bit vector; every limb loop closed by complete unwinding',
-            'not_applicable_parts': ['<< and >> with a symbolic count (limb move + bit shift loops): CBMC ran out of memory, not claimed', 'multi-limb *, /, %: two different W-bit multipliers/dividers, no SAT answer even at 64 bits total (design probe)',
+            'not_applicable_parts': ['<< and >> with a SYMBOLIC count (limb move + bit shift loops): CBMC ran out of memory; proved per count for a boundary-rich set of constant counts instead', 'multi-limb *, /, %: two different W-bit multipliers/dividers, no SAT answer even at 64 bits total (design probe)',
                                      'decimal text output and float conversion of wide values', 'numeric_limits, ++/--, conversions to/from built-ins: not built',
                                      'the two\'s-complement width is the storage width (a multiple of the limb width), not Digits+1'],
             'assumptions': []}
